@@ -201,7 +201,9 @@ impl<'a> StateMachine<'a> {
                     self.config.max_line_length,
                 );
                 self.raw_line = raw_line[..truncated_len].to_string();
-                self.line.clone_from(&self.raw_line);
+                // As for valid UTF-8, `line` is the text without escape sequences: the styles
+                // of a raw line are superimposed on it character by character.
+                self.line = ansi::strip_ansi_codes(&self.raw_line);
             }
         }
     }
